@@ -456,6 +456,10 @@ impl<'a> Socket<'a> {
 
                 let mut addresses = Vec::new();
 
+                // CNAMEs are followed on a copy: a response that ends up being dropped
+                // must not change what the pending query asks for.
+                let mut name = pq.name.clone();
+
                 for _ in 0..p.answer_record_count() {
                     let (payload2, r) = match Record::parse(payload) {
                         Ok(x) => x,
@@ -466,7 +470,7 @@ impl<'a> Socket<'a> {
                     };
                     payload = payload2;
 
-                    match eq_names(p.parse_name(r.name), p.parse_name(&pq.name)) {
+                    match eq_names(p.parse_name(r.name), p.parse_name(&name)) {
                         Ok(true) => {}
                         Ok(false) => {
                             net_trace!("answer name mismatch: {:?}", r);
@@ -493,8 +497,8 @@ impl<'a> Socket<'a> {
                                 net_trace!("too many addresses in response, ignoring {:?}", addr);
                             }
                         }
-                        RecordData::Cname(name) => {
-                            net_trace!("CNAME: {:?}", name);
+                        RecordData::Cname(cname) => {
+                            net_trace!("CNAME: {:?}", cname);
 
                             // When faced with a CNAME, recursive resolvers are supposed to
                             // resolve the CNAME and append the results for it.
@@ -503,7 +507,7 @@ impl<'a> Socket<'a> {
                             // records for the CNAME when we parse them later.
                             // I believe it's mandatory the CNAME results MUST come *after* in the
                             // packet, so it's enough to do one linear pass over it.
-                            if copy_name(&mut pq.name, p.parse_name(name)).is_err() {
+                            if copy_name(&mut name, p.parse_name(cname)).is_err() {
                                 net_trace!("dns answer cname malformed");
                                 return;
                             }
